@@ -93,6 +93,7 @@ pub fn random_cfg(rng: &mut Rng, n_keys: u16, n_meta: u8, dup: Option<bool>) -> 
         key_salt: rng.next(),
         n_keys,
         n_meta,
+        max_records: None,
     }
 }
 
